@@ -668,6 +668,145 @@ done:
   free(src); free(pic);
 }
 
+/* ------------------------------------------------------------------ legacy TurboJPEG 1.x/2.x entry points, call SEQUENCES on one handle
+ * leg <w> <h> <subsamp> <qual> <seed> <kind> <nsteps> <step>...
+ *   step = entry | bu<<4 | fastups<<5 | fastdct<<6 | accdct<<7 | norealloc<<8 | prog<<9 | fmt<<10 | pad<<14 | xop<<16 | usexf<<19
+ *   entry: 0 tjCompress2 1 tjDecompress2 2 tjEncodeYUV3 3 tjDecodeYUV 4 tjCompressFromYUV 5 tjDecompressToYUV2 6 tjTransform
+ * every call's result is printed next to the tj3 result of a FRESH instance for the same picture, row order and options:
+ *   " s<i>:<entry>:<flags>=<legacy>/<tj3>"                                                                          */
+static const char *ENTRY[7] = { "tjCompress2", "tjDecompress2", "tjEncodeYUV3", "tjDecodeYUV", "tjCompressFromYUV",
+                                "tjDecompressToYUV2", "tjTransform" };
+static void do_legacy(char *args)
+{
+  par_t p; int nsteps = 0, used = 0, i; unsigned long long seed;
+  tjhandle hc, hd, ht, r;
+  unsigned char *jpg0 = NULL, *yuv0 = NULL, *src3; size_t jlen0 = 0, yuvsz;
+  int *pic; static const int off3[3] = { 0, 1, 2 };
+  const int align = 4;
+  memset(&p, 0, sizeof(p));
+  if (sscanf(args, "%d %d %d %d %llu %d %d %n", &p.w, &p.h, &p.subsamp, &p.qual, &seed, &p.kind, &nsteps, &used) < 7) { puts("err parse"); return; }
+  args += used;
+  p.bits = 8; p.prec = 8; p.seed = seed; p.cspace = -1;
+  pic = make_picture(&p);
+  fputs("leg", stdout);
+  /* shared inputs: a JPEG and a YUV image of the picture, made by fresh tj3 instances */
+  src3 = malloc((size_t)p.w * p.h * 3 + 8);
+  place(src3, 8, pic, p.w, p.h, p.w * 3, 0, 3, off3, 3);
+  r = tj3Init(TJINIT_COMPRESS);
+  tj3Set(r, TJPARAM_QUALITY, p.qual); tj3Set(r, TJPARAM_SUBSAMP, p.subsamp);
+  if (tj3Compress8(r, src3, p.w, 0, p.h, TJPF_RGB, &jpg0, &jlen0)) { printf(" ERRsrc(%s)\n", tjerr(r)); tj3Destroy(r); free(src3); free(pic); return; }
+  yuvsz = tj3YUVBufSize(p.w, align, p.h, p.subsamp);
+  yuv0 = malloc(yuvsz + 8);
+  if (tj3EncodeYUV8(r, src3, p.w, 0, p.h, TJPF_RGB, yuv0, align)) { printf(" ERRyuv(%s)\n", tjerr(r)); tj3Destroy(r); free(src3); free(pic); return; }
+  tj3Destroy(r);
+  hc = tjInitCompress(); hd = tjInitDecompress(); ht = tjInitTransform();
+  for (i = 0; i < nsteps; i++) {
+    long st = strtol(args, &args, 10);
+    int entry = st & 15, bu = (st >> 4) & 1, fups = (st >> 5) & 1, fdct = (st >> 6) & 1, adct = (st >> 7) & 1,
+        nore = (st >> 8) & 1, prog = (st >> 9) & 1, f = (st >> 10) & 15, pi = (st >> 14) & 3, xop = (st >> 16) & 7,
+        usexf = (st >> 19) & 1;
+    int flags = (bu ? TJFLAG_BOTTOMUP : 0) | (fups ? TJFLAG_FASTUPSAMPLE : 0) | (fdct ? TJFLAG_FASTDCT : 0) |
+                (adct ? TJFLAG_ACCURATEDCT : 0) | (nore ? TJFLAG_NOREALLOC : 0) | (prog ? TJFLAG_PROGRESSIVE : 0);
+    int cfast = !(p.qual >= 96 || adct);
+    tjhandle hdec = usexf ? ht : hd;
+    int ps, off[4], nch, pf, pitch; size_t n;
+    void *buf, *orig;
+    uint64_t ha = 0, hb = 0; int ta = 0, ba = 0, tb = 0, rc1 = 0, rc2 = 0;
+    char e1[200] = "", e2[200] = "";
+    if (entry > 6) entry = 0;
+    if (f > 10 || ((entry == 0 || entry == 2) && f == 10)) f = f % 10;
+    if (f < 10) { ps = TJF[f].ps; off[0] = TJF[f].r; off[1] = TJF[f].g; off[2] = TJF[f].b; nch = 3; pf = TJF[f].id; }
+    else { ps = 1; off[0] = 0; nch = 1; pf = TJPF_GRAY; }
+    pitch = p.w * ps + PADS[pi];
+    n = (size_t)pitch * p.h;
+    buf = malloc(n + 64); orig = malloc(n + 64);
+    sm_state = seed + 977 * (uint64_t)(i + 1);
+    junk(buf, 8, n);
+    memcpy(orig, buf, n);
+    r = tj3Init(entry == 0 || entry == 2 || entry == 4 ? TJINIT_COMPRESS : entry == 6 ? TJINIT_TRANSFORM : TJINIT_DECOMPRESS);
+    tj3Set(r, TJPARAM_QUALITY, p.qual); tj3Set(r, TJPARAM_SUBSAMP, p.subsamp);
+    tj3Set(r, TJPARAM_PROGRESSIVE, prog); tj3Set(r, TJPARAM_FASTUPSAMPLE, fups);
+    switch (entry) {
+    case 0: case 4: {
+      unsigned char *j1 = NULL, *j2 = NULL; unsigned long s1 = 0; size_t s2 = 0;
+      if (nore) { s1 = tjBufSize(p.w, p.h, p.subsamp); j1 = tjAlloc((int)s1); }
+      tj3Set(r, TJPARAM_FASTDCT, cfast); tj3Set(r, TJPARAM_BOTTOMUP, bu);
+      if (entry == 0) {
+        place(buf, 8, pic, p.w, p.h, pitch, bu, ps, off, nch);
+        rc1 = tjCompress2(hc, buf, p.w, pitch, p.h, pf, &j1, &s1, p.subsamp, p.qual, flags);
+        if (rc1) snprintf(e1, sizeof(e1), "%s", tjerr(hc));
+        rc2 = tj3Compress8(r, buf, p.w, pitch, p.h, pf, &j2, &s2);
+      } else {
+        rc1 = tjCompressFromYUV(hc, yuv0, p.w, align, p.h, p.subsamp, &j1, &s1, p.qual, flags);
+        if (rc1) snprintf(e1, sizeof(e1), "%s", tjerr(hc));
+        rc2 = tj3CompressFromYUV8(r, yuv0, p.w, align, p.h, &j2, &s2);
+      }
+      if (rc2) snprintf(e2, sizeof(e2), "%s", tjerr(r));
+      if (!rc1) ha = fnv(fnv_int(FNV0, (int)s1), j1, s1);
+      if (!rc2) hb = fnv(fnv_int(FNV0, (int)s2), j2, s2);
+      tjFree(j1); tj3Free(j2);
+      break; }
+    case 1: case 3: {
+      void *b2 = malloc((size_t)p.w * ps * p.h + 64);
+      tj3Set(r, TJPARAM_FASTDCT, fdct); tj3Set(r, TJPARAM_BOTTOMUP, 0);
+      if (entry == 1) {
+        rc1 = tjDecompress2(hdec, jpg0, (unsigned long)jlen0, buf, p.w, pitch, p.h, pf, flags);
+        if (rc1) snprintf(e1, sizeof(e1), "%s", tjerr(hdec));
+        rc2 = tj3Decompress8(r, jpg0, jlen0, b2, 0, pf);
+      } else {
+        rc1 = tjDecodeYUV(hdec, yuv0, align, p.subsamp, buf, p.w, pitch, p.h, pf, flags);
+        if (rc1) snprintf(e1, sizeof(e1), "%s", tjerr(hdec));
+        rc2 = tj3DecodeYUV8(r, yuv0, align, b2, p.w, 0, p.h, pf);
+      }
+      if (rc2) snprintf(e2, sizeof(e2), "%s", tjerr(r));
+      if (!rc1) judge(buf, orig, 8, p.w, p.h, pitch, bu, ps, off, nch, -1, 255, n, &ha, &ba, &ta);
+      if (!rc2) judge(b2, b2, 8, p.w, p.h, p.w * ps, 0, ps, off, nch, -1, 255, (size_t)p.w * ps * p.h, &hb, &ba, &tb);
+      free(b2);
+      break; }
+    case 2: case 5: {
+      unsigned char *y1 = calloc(yuvsz + 8, 1), *y2 = calloc(yuvsz + 8, 1);
+      tj3Set(r, TJPARAM_FASTDCT, fdct); tj3Set(r, TJPARAM_BOTTOMUP, bu);
+      if (entry == 2) {
+        place(buf, 8, pic, p.w, p.h, pitch, bu, ps, off, nch);
+        rc1 = tjEncodeYUV3(hc, buf, p.w, pitch, p.h, pf, y1, align, p.subsamp, flags);
+        if (rc1) snprintf(e1, sizeof(e1), "%s", tjerr(hc));
+        rc2 = tj3EncodeYUV8(r, buf, p.w, pitch, p.h, pf, y2, align);
+      } else {
+        rc1 = tjDecompressToYUV2(hdec, jpg0, (unsigned long)jlen0, y1, p.w, align, p.h, flags);
+        if (rc1) snprintf(e1, sizeof(e1), "%s", tjerr(hdec));
+        rc2 = tj3DecompressToYUV8(r, jpg0, jlen0, y2, align);
+      }
+      if (rc2) snprintf(e2, sizeof(e2), "%s", tjerr(r));
+      if (!rc1) ha = fnv(FNV0, y1, yuvsz);
+      if (!rc2) hb = fnv(FNV0, y2, yuvsz);
+      free(y1); free(y2);
+      break; }
+    default: {
+      unsigned char *d1 = NULL, *d2 = NULL; unsigned long s1 = 0; size_t s2 = 0;
+      tjtransform x1, x2;
+      memset(&x1, 0, sizeof(x1)); x1.op = xop; x1.options = TJXOPT_TRIM; x2 = x1;
+      if (nore) { s1 = tjBufSize(p.w > p.h ? p.w : p.h, p.w > p.h ? p.w : p.h, p.subsamp) + 4096; d1 = tjAlloc((int)s1); }
+      tj3Set(r, TJPARAM_BOTTOMUP, 0);
+      rc1 = tjTransform(ht, jpg0, (unsigned long)jlen0, 1, &d1, &s1, &x1, flags);
+      if (rc1) snprintf(e1, sizeof(e1), "%s", tjerr(ht));
+      rc2 = tj3Transform(r, jpg0, jlen0, 1, &d2, &s2, &x2);
+      if (rc2) snprintf(e2, sizeof(e2), "%s", tjerr(r));
+      if (!rc1) ha = fnv(fnv_int(FNV0, (int)s1), d1, s1);
+      if (!rc2) hb = fnv(fnv_int(FNV0, (int)s2), d2, s2);
+      tjFree(d1); tj3Free(d2);
+      break; }
+    }
+    printf(" s%d:%s:%d=", i, ENTRY[entry], flags);
+    if (rc1) printf("ERR(%s)", e1); else printf("%016llx.%d", (unsigned long long)ha, ta);
+    if (rc2) printf("/ERR(%s)", e2); else printf("/%016llx.%d", (unsigned long long)hb, tb);
+    tj3Destroy(r);
+    free(buf); free(orig);
+  }
+  fputs("\n", stdout);
+  tjDestroy(hc); tjDestroy(hd); tjDestroy(ht);
+  tj3Free(jpg0); free(yuv0); free(src3); free(pic);
+}
+
 int main(void)
 {
   setvbuf(stdout, NULL, _IOLBF, 0);
@@ -686,7 +825,8 @@ int main(void)
                  &p.cspace, &p.lossless, &p.psv, &p.pt, &p.prec, &p.flags, &seed, &p.kind) != 13) { puts("err parse"); continue; }
       p.seed = seed;
       if (line[0] == 'e') do_enc(&p); else do_dec(&p);
-    } else puts("err unknown");
+    } else if (!strncmp(line, "leg ", 4)) do_legacy(line + 4);
+    else puts("err unknown");
   }
   return 0;
 }
